@@ -49,7 +49,7 @@ package bulking
 //@   end
 
 //@ func (b *Bulker) Run(ctx context.Context, bulk Bulk, result chan BulkElementResult, bulkOptions BulkingOptions) (err error)
-//@   property C32
+//@   property C32 C38
 //@   modifies nRun, lastRunCtrl, lastRunHasError, ctrlWrites, lastWriteCtrl, lastIK, lastSchemaVersion, lastDryRun, nCtrlBegin, lastTxCtrl, nCtrlCommit, nCtrlRollback
 //@   ensures bulkOptions.Atomic && bulkOptions.Parallel ==> err != nil && nRun == old(nRun) && nCtrlBegin == old(nCtrlBegin)
 //@   ensures nRun <= old(nRun) + 1
